@@ -863,7 +863,7 @@ func c09Decode(rt reflect.Type, data []byte, params string) c09DecRes {
 		})
 		ch <- res
 	}()
-	tm := time.NewTimer(1500 * time.Millisecond)
+	tm := time.NewTimer(3 * time.Second)
 	defer tm.Stop()
 	select {
 	case r := <-ch:
@@ -914,7 +914,7 @@ func c09DecodeCheck(out *verifkit.Out, c *c09Case, data []byte, mode string) {
 	switch {
 	case res.hang:
 		out.Count("class:dec-hang")
-		c09Fail(out, "hang", c.flags, op, "Unmarshal did not return within 1.5s")
+		c09Fail(out, "hang", c.flags, op, "Unmarshal did not return within 3s")
 		return
 	case res.panic != "":
 		out.Count("class:dec-panic")
@@ -1075,7 +1075,7 @@ func c09Run(out *verifkit.Out, r *verifkit.Rand, c *c09Case, nvals int) {
 			res := c09Decode(c.rt, data, c.params)
 			switch {
 			case res.hang:
-				c09Fail(out, "hang", c.flags, c.opDec(data), "Unmarshal did not return within 1.5s")
+				c09Fail(out, "hang", c.flags, c.opDec(data), "Unmarshal did not return within 3s")
 			case res.panic != "":
 				c09Fail(out, "panic<"+c09PanicClass(res.panic)+">", c.flags, c.opDec(data), res.panic)
 			case !res.ok:
